@@ -675,7 +675,6 @@ func addrKey(p *PState, a ssa.Value) string {
 	return rk + "|" + strings.Join(chain, ".")
 }
 
-
 func fieldID(f *types.Var) string {
 	return fmt.Sprintf("%s@%d", f.Name(), f.Pos())
 }
